@@ -130,6 +130,19 @@ def run(prop, cfg, tier, seed):
                 pass
         if kind == "oracle" and not failing:
             failing.append(why)
+        if kind == "correspondence" and not failing and cfg.get("visible"):
+            # the model is the executable specification of what the user observes here: a difference in the
+            # user-visible part of the result is a concrete input on which the implementation deviates from it
+            try:
+                ir, mr = core.parse_result(sil), core.parse_result(sml)
+                vi, vm = cfg["visible"](ir), cfg["visible"](mr)
+                if vi != vm:
+                    for a, b in zip(vi, vm):
+                        if a != b:
+                            failing.append("observable result differs from the specification (runtime model, theorems in %s): implementation %s, specification %s" % (cfg["module"], repr(a)[:400], repr(b)[:400]))
+                            break
+            except Exception:
+                pass
         name = "%s_%s" % (kind, hashlib.md5(scl.encode()).hexdigest()[:10])
         obj = {"property": prop, "kind": kind, "why": why, "tier": tier, "seed": seed,
                "header": header, "case": scl, "original_case": cl if cl != scl else None,
